@@ -190,9 +190,14 @@ class JsonWebSignature:
                 return rv
             raise BadSignatureError(rv)
 
+        if not isinstance(obj["signatures"], list):
+            raise DecodeError('Invalid "signatures" value')
+
         headers = []
         is_valid = True
         for header_obj in obj["signatures"]:
+            if not isinstance(header_obj, dict):
+                raise DecodeError('Invalid "signatures" value')
             jws_header, valid = self._validate_json_jws(
                 payload_segment, payload, header_obj, key
             )
@@ -249,6 +254,8 @@ class JsonWebSignature:
             raise MissingAlgorithmError()
 
         alg = header["alg"]
+        if not isinstance(alg, str):
+            raise UnsupportedAlgorithmError()
         if self._algorithms is not None and alg not in self._algorithms:
             raise UnsupportedAlgorithmError()
         if alg not in self.ALGORITHMS_REGISTRY:
